@@ -144,6 +144,11 @@ pub struct FsCtl {
     pub sys_count: usize,
     /// abort the process at this system-call notification (real-kill validation)
     pub abort_at_sys: Option<usize>,
+    /// system-call points are counted only while this is set (the harness clears it around its own
+    /// directory scans)
+    pub sys_armed: bool,
+    /// (call class, path) of every counted notification
+    pub sys_trace: Vec<(&'static str, PathBuf)>,
 }
 
 /// Everything a scenario can control through the hooks.
@@ -311,24 +316,24 @@ pub fn with_ctx<R>(c: Arc<Ctx>, f: impl FnOnce() -> R) -> R {
 
 // ---------------------------------------------------------------- system-call level points
 
-type ShimCb = extern "C" fn(*const libc::c_char, *const libc::c_char, *const libc::c_char);
+type ShimCb = extern "C" fn(*const libc::c_char, *const libc::c_char, *const libc::c_char) -> libc::c_int;
 
-extern "C" fn shim_cb(op: *const libc::c_char, a: *const libc::c_char, b: *const libc::c_char) {
+extern "C" fn shim_cb(op: *const libc::c_char, a: *const libc::c_char, b: *const libc::c_char) -> libc::c_int {
     use std::os::unix::ffi::OsStrExt;
-    let Some(c) = ctx() else { return };
+    let Some(c) = ctx() else { return 0 };
     // (the hook-level snapshot copies the directory while it holds this lock: its own file
     // operations are not points)
-    let Ok(mut g) = c.fs.try_lock() else { return };
-    if !g.enabled {
-        return;
+    let Ok(mut g) = c.fs.try_lock() else { return 0 };
+    if !g.enabled || !g.sys_armed {
+        return 0;
     }
-    let Some(dir) = g.sys_dir.clone() else { return };
+    let Some(dir) = g.sys_dir.clone() else { return 0 };
     // SAFETY: the shim passes NUL-terminated strings (never null)
     let (op, a, b) = unsafe { (std::ffi::CStr::from_ptr(op), std::ffi::CStr::from_ptr(a), std::ffi::CStr::from_ptr(b)) };
     let pa = Path::new(std::ffi::OsStr::from_bytes(a.to_bytes()));
     let pb = Path::new(std::ffi::OsStr::from_bytes(b.to_bytes()));
     if !(pa.starts_with(&dir) || (!b.to_bytes().is_empty() && pb.starts_with(&dir))) {
-        return;
+        return 0;
     }
     let op: &'static str = match op.to_bytes() {
         b"rename" => "sys:rename",
@@ -340,10 +345,12 @@ extern "C" fn shim_cb(op: *const libc::c_char, a: *const libc::c_char, b: *const
         b"mkdir" => "sys:mkdir",
         b"rmdir" => "sys:rmdir",
         b"truncate" => "sys:truncate",
+        b"opendir" => "sys:opendir",
         _ => "sys:other",
     };
     let n = g.sys_count;
     g.sys_count += 1;
+    g.sys_trace.push((op, pa.to_path_buf()));
     if let Some(mut f) = g.on_sys.take() {
         f(op, n, pa);
         g.on_sys = Some(f);
@@ -351,6 +358,20 @@ extern "C" fn shim_cb(op: *const libc::c_char, a: *const libc::c_char, b: *const
     if g.abort_at_sys == Some(n) {
         std::process::abort();
     }
+    // fault placements at system-call granularity: FaultSpec { site: "sys", first_occ = n, burst }
+    if g.faults.iter().any(|f| f.site.starts_with("sys:") && n >= f.first_occ && n < f.first_occ + f.burst) {
+        // recorded under the name of the hook site the call corresponds to
+        let site = match op {
+            "sys:rename" | "sys:link" => "rename",
+            "sys:open-creat" | "sys:open-trunc" | "sys:truncate" | "sys:mkdir" => "open",
+            "sys:unlink" | "sys:rmdir" => "cleanup_remove",
+            "sys:symlink" => "symlink",
+            _ => "list",
+        };
+        g.injected.push((site, n));
+        return libc::EACCES;
+    }
+    0
 }
 
 /// True iff the process runs with the interposition shim (LD_PRELOAD); registers the callback.
